@@ -3,6 +3,7 @@ package props
 import (
 	"fmt"
 	"go/ast"
+	"go/constant"
 	"go/token"
 	"go/types"
 	"sort"
@@ -1416,6 +1417,22 @@ func rulePlaintextExemptions(c *core.Ctx) {
 			if call, isCall := ast.Unparen(rhs).(*ast.CallExpr); isCall && core.CalleeKey(info, call) == "pdf.filterChainStartsWithCrypt" {
 				defs = append(defs, "startsWithCrypt")
 				continue
+			}
+			// "true" assigned under a test (a folded-in helper that returns true early) is that test
+			if cv := core.ConstOf(info, rhs); cv != nil && cv.Kind() == constant.Bool && constant.BoolVal(cv) {
+				if dv := g.VertexOf(as); dv != nil {
+					var conds []string
+					for _, cnd := range dominatingConds(g, dv) {
+						if strings.HasPrefix(cnd, "err ") || cnd == "!(w.inStream)" || strings.Contains(cnd, "exists") || strings.Contains(cnd, "isInteger") || strings.Contains(cnd, "hasLength") || strings.Contains(strings.ToLower(cnd), "instream") {
+							continue
+						}
+						conds = append(conds, strings.ReplaceAll(cnd, " ", ""))
+					}
+					if len(conds) == 1 {
+						defs = append(defs, conds[0])
+						continue
+					}
+				}
 			}
 			defs = append(defs, strings.ReplaceAll(core.ExprStr(rhs), " ", ""))
 		}
